@@ -213,11 +213,30 @@ DEATH_PATTERNS = [
 ]
 
 
+def panic_origin(log_tail):
+    """Whose code panicked: walk the frames of the panicking goroutine from the top and return
+    "engine" or "harness" for the first frame that belongs to either (runtime and third-party
+    frames are skipped); None if the stack is not in the tail."""
+    m = re.search(r"^panic: .*?\n\s*\ngoroutine \d+ \[running\]:\n(.*?)(?:\n\s*\n|\Z)", log_tail, re.S | re.M)
+    if not m:
+        return None
+    for line in m.group(1).splitlines():
+        if line.startswith(("\t", " ")):
+            continue  # file:line rows
+        if line.startswith("github.com/B1NARY-GR0UP/originium"):
+            return "engine"
+        if line.startswith("verif/harness"):
+            return "harness"
+    return None
+
+
 def classify_death(log_tail):
     if "panic: test timed out" in log_tail:
         return None  # a time budget, never a violation
     for pat, kind in DEATH_PATTERNS:
         if pat.search(log_tail):
+            if kind == "panic" and panic_origin(log_tail) == "harness":
+                return None  # the machinery itself failed: inconclusive, never a violation
             return kind
     return None
 
